@@ -92,6 +92,9 @@ func GenStringBytes(t *rapid.T) []byte {
 	case 0:
 		return []byte{}
 	case 1:
+		if rapid.IntRange(0, 2).Draw(t, "keywordString") == 0 {
+			return []byte(rapid.SampledFrom(keywordWords).Draw(t, "keyword")) // (stream) is a string, not the keyword
+		}
 		return []byte(rapid.SampledFrom(asciiWords).Draw(t, "word"))
 	case 2: // parentheses: balanced, nested, unbalanced
 		return []byte(rapid.SampledFrom([]string{"()", "(())", "a(b(c)d)e", ")(", "(", ")", "(()", "())", "((", "))(("}).Draw(t, "parens"))
@@ -109,7 +112,11 @@ func GenStringBytes(t *rapid.T) []byte {
 	}
 }
 
-var commonNames = []string{"Type", "F1", "Font", "A", "Length", "GS0", "Im1", "Name.With.Dots", "A;Name_With-Various***Characters?", "1.2", "$$", "@pattern", ".notdef", "a+b", "true", "null", "R", "Tj"}
+var commonNames = []string{"Type", "F1", "Font", "A", "Length", "GS0", "Im1", "Name.With.Dots", "A;Name_With-Various***Characters?", "1.2", "$$", "@pattern", ".notdef", "a+b", "true", "null", "R", "Tj",
+	// words that are keywords when they stand alone: as a name or inside a string they are ordinary data
+	"stream", "endstream", "obj", "endobj", "xref", "trailer", "startxref", "false", "BI", "ID", "EI", "BT", "ET", "Do"}
+
+var keywordWords = []string{"stream", "endstream", "obj", "endobj", "xref", "trailer", "startxref", "true", "false", "null", "R", "BI", "ID", "EI", "BT", "Tj"}
 
 // GenNameBytes draws the bytes of a name (§7.3.5: any bytes except NUL).
 func GenNameBytes(t *rapid.T) []byte {
